@@ -7,7 +7,14 @@ impl cbor_event::se::Serialize for VotingProcedures {
         &self,
         serializer: &'se mut Serializer<W>,
     ) -> cbor_event::Result<&'se mut Serializer<W>> {
-        serializer.write_map(cbor_event::Len::Len(self.0.len() as u64))?;
+        // voters without votes are not written (the CDDL wants a non-empty inner map), so they are not counted either
+        let mut voters_with_votes = 0u64;
+        for (_voter, votes) in &self.0 {
+            if !votes.is_empty() {
+                voters_with_votes += 1;
+            }
+        }
+        serializer.write_map(cbor_event::Len::Len(voters_with_votes))?;
         for (voter, votes) in &self.0 {
             if votes.is_empty() {
                 continue;
